@@ -491,6 +491,11 @@ func TestVerif_C06(t *testing.T) {
 					}
 				}
 				c.Nontrivial(fmt.Sprintf("%s|pending=%d|recorded=%d|faults=%v", lab, pend, recd, faults))
+				if c.WantSample() {
+					c.Sample(map[string]any{"crash_point_index": idx, "crash_point_label": lab, "crash_points_in_history": n, "fault_plan": faults,
+						"recorded_services_at_crash": recd, "pending_services_at_crash": pend, "recorded": cb.crashRec.IPs,
+						"scheduler_steps": cb.k.Steps, "events": cb.k.Events})
+				}
 			} else {
 				c.Count("crash-point-not-reached")
 			}
